@@ -4,7 +4,7 @@
     that every [Proved name] row of the table has a certificate with that name.  Renaming or deleting a lemma, or
     adding a table row that cites a lemma which does not exist, makes the check compute to [false]. *)
 From Coq Require Import List String NArith Bool Permutation Sorting.Sorted.
-From Teleport Require Import Base.Bytes Base.Outcome Model.MapLoops Model.DeterminismCheck Proofs.MapLoops.
+From Teleport Require Import Base.Bytes Base.Outcome Model.MapLoops Proofs.MapLoops.
 Import ListNotations.
 Local Open Scope string_scope.
 
